@@ -18,7 +18,7 @@ HOOKS = {
 
 ENGINES = [
     {'name': 'vf', 'path': 'vf/harness.py',
-     'serves_properties': ['C07', 'C13', 'C16', 'C20'],
+     'serves_properties': ['C07', 'C13', 'C15', 'C16', 'C20'],
      'kind_free_text': ('runtime monitoring driver: 16 worker processes import the real '
                         'openhtf from /repo, run enumerated + seeded cases, monitors '
                         'decide each property from observed events; witnesses are '
@@ -80,5 +80,18 @@ CHECKS = {
                  'exception classes/text are compared with the automaton'),
         'note': ('trusts the 40-line automaton in vf/props/c16.py; FastbootDevice retry wrapper and erase() return '
                  'value are not claimed'),
+    },
+    'C15': {
+        'level': 'exploration',
+        'technique': 'runtime protocol-automaton monitoring: scripted fake ADB device; handshake automaton over all reply sequences; sequential reference model of the stream multiplexer over open/read/write/close histories',
+        'text': ('connect() is run against every device reply sequence of length <= 4 (quick) / <= 6 (thorough) over '
+                 '{CNXN, malformed CNXN, AUTH token, AUTH 2, AUTH 3, noise OKAY, noise WRTE, silence} with 0-2 recording '
+                 'signers: the messages the fake device received and the returned connection / error class are compared '
+                 'with the handshake automaton; single-threaded stream histories (exhaustive over a 10-operation alphabet '
+                 'to length 3/4, directed id-exhaustion / wrap-around / 64-probe / drain / illegal-packet histories, seeded '
+                 'random ones) are compared call by call with a sequential model, plus the multiset of host messages by '
+                 '(command, local id, remote id) and id distinctness/range with STREAM_ID_LIMIT 8, 70 and the real limit'),
+        'note': ('trusts the automaton and the sequential multiplexer model in vf/props/c15.py; silence is modelled as the '
+                 'transport\'s USB time-out; multi-threaded use of a connection is C14'),
     },
 }
